@@ -1,4 +1,4 @@
-import Proofs.SqlBuildOk
+import Proofs.SqlBuildTotal
 import Proofs.SqlLoader
 
 set_option linter.unusedSimpArgs false
@@ -231,7 +231,7 @@ theorem popInstance_arity (u : UC) (s : BState) (kind : Name) (values : List Tex
 /-- a positional INSERT into a declared class with an attribute of unknown type raises the metamodel exception -/
 theorem popInstance_unknown_type (u : UC) (s : BState) (kind : Name) (values : List Text) (c : ClassB)
     (hf : s.find? u kind = some c) (hrow : newRowOk u c = false) : popInstance u s kind values none = .error .metaErr := by
-  simp [popInstance, isNamed, inferOk, ensureClass, hf, hrow]
+  simp [popInstance, isNamed, inferOk, guessOk, ensureClass, hf, hrow]
 
 /-- a named INSERT (as many names as values) into an undeclared class, two of whose names coincide after upper-casing,
     raises the metamodel exception: `define_class` rejects the inferred class -/
@@ -246,7 +246,7 @@ theorem popInstance_name_clash (u : UC) (s : BState) (kind : Name) (values : Lis
 theorem popInstance_bad_value (u : UC) (s : BState) (kind : Name) (values : List Text) (c : ClassB)
     (hf : s.find? u kind = some c) (hrow : newRowOk u c = true) (e : BuildErr)
     (hcells : positionalCells u c c.attrs values = .error e) : popInstance u s kind values none = .error e := by
-  simp [popInstance, isNamed, inferOk, ensureClass, hf, hrow, cellsOf, hcells]
+  simp [popInstance, isNamed, inferOk, guessOk, ensureClass, hf, hrow, cellsOf, hcells]
 
 theorem positionalCells_bad (u : UC) (c : ClassB) : ∀ (attrs : List (Name × Name)) (values : List Text),
     ¬ CellsOk u attrs values → positionalCells u c attrs values = .error .parseErr := by
@@ -291,37 +291,37 @@ theorem popInstances_first_failure (u : UC) : ∀ (pre : List Stmt) (s s' : BSta
 
 /-! ### the whole build -/
 
-theorem build_fails_tables (u : UC) (stmts : List Stmt) (h : ¬ TablesOk u [] (newTables stmts)) :
-    build u stmts = .error .metaErr := by
-  unfold build
+theorem buildCore_fails_tables (u : UC) (stmts : List Stmt) (h : ¬ TablesOk u [] (newTables stmts)) :
+    buildCore u stmts = .error .metaErr := by
+  unfold buildCore
   rw [popClasses_dup u stmts BState.empty (by simp [KindsDistinct, BState.empty]) (by simpa [BState.empty] using h)]
 
-theorem build_fails_duplicate (u : UC) (stmts : List Stmt) (h : ¬ KindsDistinct u (newTables stmts)) :
-    build u stmts = .error .metaErr :=
-  build_fails_tables u stmts (fun ht => h (by simpa using ht.1))
+theorem buildCore_fails_duplicate (u : UC) (stmts : List Stmt) (h : ¬ KindsDistinct u (newTables stmts)) :
+    buildCore u stmts = .error .metaErr :=
+  buildCore_fails_tables u stmts (fun ht => h (by simpa using ht.1))
 
 /-- a declared class with two attribute names that coincide after upper-casing -/
-theorem build_fails_attr_names (u : UC) (stmts : List Stmt) (h : ∃ c ∈ newTables stmts, attrNamesOk u c.attrs = false) :
-    build u stmts = .error .metaErr := by
+theorem buildCore_fails_attr_names (u : UC) (stmts : List Stmt) (h : ∃ c ∈ newTables stmts, attrNamesOk u c.attrs = false) :
+    buildCore u stmts = .error .metaErr := by
   obtain ⟨c, hc, hn⟩ := h
-  exact build_fails_tables u stmts (fun ht => by have := ht.2 c hc; rw [hn] at this; cases this)
+  exact buildCore_fails_tables u stmts (fun ht => by have := ht.2 c hc; rw [hn] at this; cases this)
 
-theorem build_fails_index (u : UC) (stmts : List Stmt) (hd : KindsDistinct u (newTables stmts))
+theorem buildCore_fails_index (u : UC) (stmts : List Stmt) (hd : KindsDistinct u (newTables stmts))
     (hn : ∀ c ∈ newTables stmts, attrNamesOk u c.attrs = true)
     (h : ∃ kind name attrs, Stmt.createIndex kind name attrs ∈ stmts ∧ attrs ≠ [] ∧
-      ∀ c ∈ newTables stmts, sameKind u c.kind kind = false) : build u stmts = .error .metaErr := by
-  unfold build
+      ∀ c ∈ newTables stmts, sameKind u c.kind kind = false) : buildCore u stmts = .error .metaErr := by
+  unfold buildCore
   have h1 := popClasses_ok u stmts BState.empty (by simpa [BState.empty] using hd) hn
   simp only [BState.empty, List.nil_append] at h1
   simp only [BState.empty, h1]
   rw [popIdents_unknown u stmts ⟨newTables stmts, []⟩ h]
 
-theorem build_fails_rop (u : UC) (stmts : List Stmt) (hd : KindsDistinct u (newTables stmts))
+theorem buildCore_fails_rop (u : UC) (stmts : List Stmt) (hd : KindsDistinct u (newTables stmts))
     (hn : ∀ c ∈ newTables stmts, attrNamesOk u c.attrs = true)
     (hi : ∀ kind name attrs, Stmt.createIndex kind name attrs ∈ stmts → attrs ≠ [] → ∃ c ∈ newTables stmts, sameKind u c.kind kind = true)
     (h : ∃ rel sk sc skeys sp tk tc tkeys tp, Stmt.createRop rel sk sc skeys sp tk tc tkeys tp ∈ stmts ∧
-      RopBad u (newTables stmts) sk skeys tk tkeys) : build u stmts = .error .metaErr := by
-  unfold build
+      RopBad u (newTables stmts) sk skeys tk tkeys) : buildCore u stmts = .error .metaErr := by
+  unfold buildCore
   have h1 := popClasses_ok u stmts BState.empty (by simpa [BState.empty] using hd) hn
   simp only [BState.empty, List.nil_append] at h1
   simp only [BState.empty, h1]
@@ -333,15 +333,50 @@ theorem build_fails_rop (u : UC) (stmts : List Stmt) (hd : KindsDistinct u (newT
       (fun c => foldl_attrs _ (identsStep_attrs u) stmts c) hbad⟩]
 
 /-- if the definition phases succeed, the first INSERT that fails decides the outcome -/
-theorem build_fails_insert (u : UC) (pre post : List Stmt) (kind : Name) (values : List Text) (names : Option (List Name))
+theorem buildCore_fails_insert (u : UC) (pre post : List Stmt) (kind : Name) (values : List Text) (names : Option (List Name))
     (s1 s2 s3 s' : BState) (e : BuildErr)
     (h1 : popClasses u (pre ++ Stmt.insert kind values names :: post) BState.empty = .ok s1)
     (h2 : popIdents u (pre ++ Stmt.insert kind values names :: post) s1 = .ok s2)
     (h3 : popAssocs u (pre ++ Stmt.insert kind values names :: post) s2 = .ok s3)
     (hpre : popInstances u pre s3 = .ok s') (hins : popInstance u s' kind values names = .error e) :
-    build u (pre ++ Stmt.insert kind values names :: post) = .error e := by
-  unfold build
+    buildCore u (pre ++ Stmt.insert kind values names :: post) = .error e := by
+  unfold buildCore
   simp only [h1, h2, h3]
   exact popInstances_first_failure u pre s3 s' kind values names post e hpre hins
+
+/-! ### … lifted to `build` (no `__x__` identifier in an attribute position) -/
+
+theorem build_of_core_error (u : UC) (stmts : List Stmt) (e : BuildErr) (hp : touchesInternals stmts = false)
+    (h : buildCore u stmts = .error e) : build u stmts = .error e := by rw [build_eq_core u stmts hp]; exact h
+
+theorem build_fails_duplicate (u : UC) (stmts : List Stmt) (hp : touchesInternals stmts = false)
+    (h : ¬ KindsDistinct u (newTables stmts)) : build u stmts = .error .metaErr :=
+  build_of_core_error u stmts _ hp (buildCore_fails_duplicate u stmts h)
+
+theorem build_fails_attr_names (u : UC) (stmts : List Stmt) (hp : touchesInternals stmts = false)
+    (h : ∃ c ∈ newTables stmts, attrNamesOk u c.attrs = false) : build u stmts = .error .metaErr :=
+  build_of_core_error u stmts _ hp (buildCore_fails_attr_names u stmts h)
+
+theorem build_fails_index (u : UC) (stmts : List Stmt) (hp : touchesInternals stmts = false)
+    (hd : KindsDistinct u (newTables stmts)) (hn : ∀ c ∈ newTables stmts, attrNamesOk u c.attrs = true)
+    (h : ∃ kind name attrs, Stmt.createIndex kind name attrs ∈ stmts ∧ attrs ≠ [] ∧
+      ∀ c ∈ newTables stmts, sameKind u c.kind kind = false) : build u stmts = .error .metaErr :=
+  build_of_core_error u stmts _ hp (buildCore_fails_index u stmts hd hn h)
+
+theorem build_fails_rop (u : UC) (stmts : List Stmt) (hp : touchesInternals stmts = false)
+    (hd : KindsDistinct u (newTables stmts)) (hn : ∀ c ∈ newTables stmts, attrNamesOk u c.attrs = true)
+    (hi : ∀ kind name attrs, Stmt.createIndex kind name attrs ∈ stmts → attrs ≠ [] → ∃ c ∈ newTables stmts, sameKind u c.kind kind = true)
+    (h : ∃ rel sk sc skeys sp tk tc tkeys tp, Stmt.createRop rel sk sc skeys sp tk tc tkeys tp ∈ stmts ∧
+      RopBad u (newTables stmts) sk skeys tk tkeys) : build u stmts = .error .metaErr :=
+  build_of_core_error u stmts _ hp (buildCore_fails_rop u stmts hd hn hi h)
+
+theorem build_fails_insert (u : UC) (pre post : List Stmt) (kind : Name) (values : List Text) (names : Option (List Name))
+    (s1 s2 s3 s' : BState) (e : BuildErr) (hp : touchesInternals (pre ++ Stmt.insert kind values names :: post) = false)
+    (h1 : popClasses u (pre ++ Stmt.insert kind values names :: post) BState.empty = .ok s1)
+    (h2 : popIdents u (pre ++ Stmt.insert kind values names :: post) s1 = .ok s2)
+    (h3 : popAssocs u (pre ++ Stmt.insert kind values names :: post) s2 = .ok s3)
+    (hpre : popInstances u pre s3 = .ok s') (hins : popInstance u s' kind values names = .error e) :
+    build u (pre ++ Stmt.insert kind values names :: post) = .error e :=
+  build_of_core_error u _ _ hp (buildCore_fails_insert u pre post kind values names s1 s2 s3 s' e h1 h2 h3 hpre hins)
 
 end Pyx.Sql
